@@ -334,66 +334,91 @@ def run(ctx, rep):
                    % (A.src(lp.target), A.src(it)), ctx.loc(lp))
     # loops over a local bound to a copy
     # ------------------------------------------------------------------ R18.5
+    # model evaluation (sa/miniinterp.py; no repository code is run) of the two table helpers on every relevant table state
+    from .. import miniinterp as MI
+    import copy as _copy
     fa = ctx.func(RS + "._add_service")
-    ga = ctx.cfg(fa, raises="default")
-    rep.analysed(fa, ga)
-    doma = Q.dominators(ga)
-    ap = A.params(fa.node)
-    notes = [n for n in ga.live if n.kind == "stmt" and n.ast is not None and A.find_calls(n.ast, "self.on_service_added")]
-    rep.floor("R18.5", "on_service_added call sites", len(notes), 1)
-    rda = Q.ReachingDefs(ga)
-    for n in notes:
-        ok = False
-        for t, pol in Q.dominating_conditions(ga, n, doma):
-            if pol and isinstance(t.ast, ast.Name):
-                defs = rda.at(t, t.ast.id)
-                for d in defs:
-                    if d != "param" and isinstance(d.ast, ast.Assign) and isinstance(d.ast.value, ast.Compare) and \
-                            isinstance(d.ast.value.ops[0], ast.NotIn) and A.src(d.ast.value.left) == ap[2] and \
-                            "self.services" in A.src(d.ast.value.comparators[0]):
-                        # the membership test precedes the store of the time stamp
-                        stores_ = [s for s in ga.live if s.kind == "stmt" and isinstance(s.ast, ast.Assign) and
-                                   "self.services[%s][%s]" % (ap[1], ap[2]) == A.src(s.ast.targets[0])]
-                        ok = all(d.id in doma[s.id] for s in stores_) and bool(stores_)
-            if pol and isinstance(t.ast, ast.Compare) and isinstance(t.ast.ops[0], ast.NotIn) and A.src(t.ast.left) == ap[2]:
-                ok = True
-        rep.ob("R18.5", "_add_service: on_service_added fires only when the (name, address) pair was not present", ok,
-               "guarded by `is_new` computed before the time stamp is stored" if ok else
-               "the added-notification also fires on keep-alives (or the membership test follows the store)", ctx.loc(n))
-        hs = [t for t, l in n.succ if l == "exc" and t.kind == "except"]
-        okc = bool(hs) and not any(t is ga.excexit for t, l in n.succ if l == "exc")
-        rep.ob("R18.5", "_add_service: a failing callback is contained", okc, "try/except Exception around the callback" if okc
-               else "a failing on_service_added callback aborts the registration", ctx.loc(n))
     fr_ = ctx.func(RS + "._remove_service")
-    grm = ctx.cfg(fr_, raises="default")
-    rep.analysed(fr_, grm)
-    domr2 = Q.dominators(grm)
-    rp = A.params(fr_.node)
-    notes = [n for n in grm.live if n.kind == "stmt" and n.ast is not None and A.find_calls(n.ast, "self.on_service_removed")]
-    rep.floor("R18.5", "on_service_removed call sites", len(notes), 1)
-    for n in notes:
-        ok = False
-        for t, pol in Q.dominating_conditions(grm, n, domr2):
-            s = A.src(t.ast)
-            if rp[2] in A.names_loaded(t.ast) and "self.services" in s:
-                ok = True
-            if isinstance(t.ast, (ast.Name, ast.Compare)):
-                # a local bound to the result of pop()/membership
-                for v in A.names_loaded(t.ast):
-                    for d in Q.ReachingDefs(grm).at(t, v):
-                        if d != "param" and rp[2] in A.names_loaded(d.ast) and "self.services" in A.src(d.ast):
-                            ok = True
-        rep.ob("R18.5", "_remove_service: on_service_removed fires only when that address was actually registered under that name",
-               ok, "the notification is control-dependent on the membership/removal result" if ok else
-               "on_service_removed is called unconditionally: one `unregister` from host X fires the removed-notification for every "
-               "service name, including names X never registered", ctx.loc(n))
-        okc = not any(t is grm.excexit for t, l in n.succ if l == "exc")
-        rep.ob("R18.5", "_remove_service: a failing callback is contained", okc, "try/except Exception around the callback" if okc
-               else "a failing on_service_removed callback aborts the command", ctx.loc(n))
-    okdel = any(isinstance(n, ast.If) and "not self.services[%s]" % rp[1] == A.src(n.test) and any(
-        isinstance(x, ast.Delete) for x in n.body) for n in A.walk(fr_.node))
-    rep.ob("R18.5", "_remove_service: a name with no servers left is removed from the table", okdel,
-           "`if not self.services[name]: del self.services[name]`" if okdel else "empty service entries are kept", fr_.loc, kind="site")
+    rep.analysed(fa)
+    rep.analysed(fr_)
+    NOW = 1000.0
+    A1, A2 = ("10.0.0.1", 1), ("10.0.0.2", 2)
+
+    def run_helper(f, table, args, fail=False):
+        fired = []
+
+        def cb(kind):
+            def call(*a):
+                fired.append((kind,) + tuple(a))
+                if fail:
+                    raise MI.Raised("Exception")
+            return call
+        hooks = {"self.on_service_added": cb("added"), "self.on_service_removed": cb("removed"), "time.time": lambda: NOW}
+        for lv in ("debug", "info", "warn", "warning", "error", "exception"):
+            hooks["self.logger." + lv] = lambda *a: None
+        state = {"services": _copy.deepcopy(table)}
+        err = None
+        try:
+            MI.call_method(f.node, state, list(args), {"__calls__": hooks})
+        except MI.Raised as r:
+            err = r.name
+        return state["services"], fired, err
+    add_rows = [
+        ("first server of a new name", {}, {"FOO": {A1: NOW}}, True),
+        ("new name next to another", {"BAR": {A2: 5.0}}, {"BAR": {A2: 5.0}, "FOO": {A1: NOW}}, True),
+        ("second server of a known name", {"FOO": {A2: 5.0}}, {"FOO": {A2: 5.0, A1: NOW}}, True),
+        ("keep-alive of a registered server", {"FOO": {A1: 5.0}}, {"FOO": {A1: NOW}}, False),
+        ("name known but empty", {"FOO": {}}, {"FOO": {A1: NOW}}, True),
+    ]
+    bad_state, bad_note, bad_fail = [], [], []
+    try:
+        for what, table, want, fires in add_rows:
+            got, fired, err = run_helper(fa, table, ["FOO", A1])
+            if got != want or err:
+                bad_state.append("%s: table %s -> %s%s" % (what, table, got, " raising %s" % err if err else ""))
+            if fired != ([("added", "FOO", A1)] if fires else []):
+                bad_note.append("%s: notifications %s" % (what, fired))
+            got, fired, err = run_helper(fa, table, ["FOO", A1], fail=True)
+            if err or got != want:
+                bad_fail.append("%s: %s" % (what, err or "table %s" % got))
+    except AnalysisError as ex:
+        bad_state.append("cannot evaluate: %s" % ex)
+    rep.ob("R18.5", "_add_service: records (name, address) with the current time and leaves the rest of the table alone", not bad_state,
+           "%d table states evaluated" % len(add_rows) if not bad_state else "; ".join(bad_state)[:400], fa.loc, kind="table")
+    rep.ob("R18.5", "_add_service: on_service_added fires only when the (name, address) pair was not present", not bad_note,
+           "fires exactly on the new pairs, once" if not bad_note else
+           "the added-notification also fires on keep-alives / is missing for a new pair: " + "; ".join(bad_note)[:300], fa.loc, kind="table")
+    rep.ob("R18.5", "_add_service: a failing callback is contained", not bad_fail, "the registration survives a raising callback"
+           if not bad_fail else "a failing on_service_added callback aborts the registration: " + "; ".join(bad_fail)[:300], fa.loc,
+           kind="table")
+    rem_rows = [
+        ("one of two servers", {"FOO": {A1: 5.0, A2: 6.0}}, {"FOO": {A2: 6.0}}, True),
+        ("the last server of a name", {"FOO": {A1: 5.0}, "BAR": {A1: 7.0}}, {"BAR": {A1: 7.0}}, True),
+        ("an address not registered under that name", {"FOO": {A2: 6.0}, "BAR": {A1: 7.0}}, {"FOO": {A2: 6.0}, "BAR": {A1: 7.0}}, False),
+    ]
+    bad_state, bad_note, bad_fail = [], [], []
+    try:
+        for what, table, want, fires in rem_rows:
+            got, fired, err = run_helper(fr_, table, ["FOO", A1])
+            if got != want or err:
+                bad_state.append("%s: table %s -> %s%s" % (what, table, got, " raising %s" % err if err else ""))
+            if fired != ([("removed", "FOO", A1)] if fires else []):
+                bad_note.append("%s: notifications %s" % (what, fired))
+            got, fired, err = run_helper(fr_, table, ["FOO", A1], fail=True)
+            if err or got != want:
+                bad_fail.append("%s: %s" % (what, err or "table %s" % got))
+    except AnalysisError as ex:
+        bad_state.append("cannot evaluate: %s" % ex)
+    rep.ob("R18.5", "_remove_service: removes exactly that server; a name with no servers left is removed from the table",
+           not bad_state, "%d table states evaluated" % len(rem_rows) if not bad_state else "; ".join(bad_state)[:400], fr_.loc,
+           kind="table")
+    rep.ob("R18.5", "_remove_service: on_service_removed fires only when that address was actually registered under that name",
+           not bad_note, "fires exactly when an entry was removed" if not bad_note else
+           "on_service_removed is not tied to an actual removal (one `unregister` from host X fires for names X never registered): "
+           + "; ".join(bad_note)[:300], fr_.loc, kind="table")
+    rep.ob("R18.5", "_remove_service: a failing callback is contained", not bad_fail, "the removal survives a raising callback"
+           if not bad_fail else "a failing on_service_removed callback aborts the command: " + "; ".join(bad_fail)[:300], fr_.loc,
+           kind="table")
 
     # ------------------------------------------------------------------ R18.6
     fq = ctx.func(RS + ".cmd_query")
